@@ -1133,3 +1133,161 @@ Proof.
   - intros o. rewrite Hallow. apply I.
   - rewrite Hbal. destruct (decide (VR = cl)); [congruence|reflexivity].
 Qed.
+
+Lemma inv_deliver_vr st0 t1 e from am p st' ids ev :
+  reg_inv st0 -> from <> VR ->
+  tk_transfer (tok st0) from VR am = Ok (tk_set_allow t1 (allow (tok st0))) -> noallow t1 ->
+  deliver (set_tok st0 t1) e from VR am p = Ok (st', ids, ev) ->
+  reg_inv st' /\ wld st' = wld st0.
+Proof.
+  intros I Hne Ht Hna Hd. unfold deliver in Hd. rewrite Z.eqb_refl in Hd.
+  apply tk_transfer_spec in Ht as (Ha & Hv & _ & He & _ & _ & _ & _ & Hbal & _).
+  specialize (Hbal Hne VR). destruct (decide (VR = from)); [congruence|].
+  destruct (decide (VR = VR)); [|congruence]. cbn in Hbal.
+  apply tk_effect_set_allow in He.
+  exact (hook_inv st0 t1 e from am p st' ids ev I He Hna Hbal Hv Hd).
+Qed.
+
+Lemma tk_set_allow_same t : tk_set_allow t (allow t) = t.
+Proof. destruct t; reflexivity. Qed.
+
+Lemma inv_transfer st e c to am p st' ids ev :
+  dc_transfer st e c to am p = Ok (st', ids, ev) -> c <> VR ->
+  reg_inv st -> reg_inv st' /\ wld st' = wld st.
+Proof.
+  unfold dc_transfer. intros H Hc I.
+  destruct (negb ((to =? VR) || (c =? VR))) eqn:E; [discriminate|].
+  apply negb_false_iff, orb_true_iff in E as [E|E]; apply Z.eqb_eq in E; [subst to|congruence].
+  apply rbind_ok in H as (t1 & Ht1 & Hd).
+  eapply inv_deliver_vr; eauto.
+  - assert (allow t1 = allow (tok st)) as <- by (apply tk_transfer_spec in Ht1; tauto).
+    rewrite tk_set_allow_same. exact Ht1.
+  - assert (Hal : allow t1 = allow (tok st)) by (apply tk_transfer_spec in Ht1; tauto).
+    intros o. rewrite Hal. apply I.
+Qed.
+
+Lemma inv_transfer_from st e c from to am p st' ids ev :
+  dc_transfer_from st e c from to am p = Ok (st', ids, ev) -> c <> VR ->
+  reg_inv st -> reg_inv st' /\ wld st' = wld st.
+Proof.
+  unfold dc_transfer_from. intros H Hc I.
+  destruct (negb (to =? VR)) eqn:E; [discriminate|].
+  apply negb_false_iff, Z.eqb_eq in E. subst to.
+  apply rbind_ok in H as (t1 & Ht1 & Hd).
+  apply tk_transfer_from_spec in Ht1 as (al' & Hu & Hne & Ht & Hal).
+  pose proof (use_allowance_owner _ _ _ _ _ (ri_noallow _ I) Hne Hu) as Hfrom.
+  eapply inv_deliver_vr; eauto.
+  intros o. rewrite Hal. apply use_allowance_spec in Hu as (_ & _ & Hk).
+  eapply noallow_other; [exact Hfrom|exact Hk|apply I].
+Qed.
+
+Lemma inv_claim st e c gs aon st' r ev :
+  claim_allocations st e c gs aon = Ok (st', r, ev) ->
+  reg_inv st -> reg_inv st' /\ wld st' = wld st.
+Proof.
+  intros H I. apply claim_allocations_spec in H as (_ & K & acc & HK & Hbo & Hw & Hreg & _).
+  split; [|exact Hw]. destruct HK as [Hnd Hal Htot Hev Hwit Hmono Hnew].
+  apply burn_opt_spec in Hbo as (He & Hallow & _ & _ & Hbal).
+  destruct I as [It Ia [Ial Iuq] Icl In_ Ib].
+  constructor.
+  - eapply tk_effect_inv; eauto.
+  - intros o. rewrite Hallow. apply Ia.
+  - rewrite Hreg. split; cbn; rewrite Hal.
+    + intros c0 i a Hl. apply del_all_lookup_Some in Hl. auto.
+    + intros c0 c' i a a' H1 H2. apply del_all_lookup_Some in H1, H2. eauto.
+  - rewrite Hreg. intros p i cl Hcl. cbn in *.
+    destruct (Hnew _ _ Hcl) as [Hold|(id & [= -> ->] & Hid & _)]; [apply Icl; exact Hold|].
+    apply in_map_iff in Hid as ([c0 i0] & Hi0 & HinK). cbn in Hi0. subst i0.
+    destruct (Hwit c0 id HinK) as (g & ac & a & _ & _ & _ & _ & Ha & _ & Hcl').
+    rewrite Hcl' in Hcl. injection Hcl as <-. cbn. split; [reflexivity|]. apply Ial in Ha. tauto.
+  - rewrite Hreg. exact In_.
+  - rewrite Hreg. cbn [allocs]. rewrite Hal, Hbal. destruct (decide (VR = VR)); [|congruence].
+    unfold asum. rewrite del_all_msum by (apply NoDup_map_snd_keys; exact Hnd).
+    rewrite Ib, Htot. unfold asum. rewrite dc2tok_sub. reflexivity.
+Qed.
+
+Lemma inv_remove_expired_allocations st e client ids st' r ev :
+  remove_expired_allocations st e client ids = Ok (st', r, ev) ->
+  reg_inv st -> reg_inv st' /\ wld st' = wld st.
+Proof.
+  intros H I. apply remove_expired_allocations_spec in H as (Hnd & Hne & _ & Ht & Hw & Hreg & _).
+  split; [|exact Hw].
+  apply tk_transfer_spec in Ht as (_ & _ & _ & He & _ & _ & Hallow & _ & Hbal & _).
+  assert (Hne' : VR <> client) by congruence. specialize (Hbal Hne' VR).
+  destruct (decide (VR = VR)); [|congruence].
+  destruct I as [It Ia [Ial Iuq] Icl In_ Ib].
+  constructor.
+  - eapply tk_effect_inv; eauto.
+  - intros o. rewrite Hallow. apply Ia.
+  - rewrite Hreg. split; cbn.
+    + intros c0 i a Hl. apply del_all_lookup_Some in Hl. auto.
+    + intros c0 c' i a a' H1 H2. apply del_all_lookup_Some in H1, H2. eauto.
+  - rewrite Hreg. exact Icl.
+  - rewrite Hreg. exact In_.
+  - rewrite Hreg. cbn [allocs]. rewrite Hbal. unfold asum.
+    rewrite del_all_msum by (apply NoDup_map_pair; exact Hnd).
+    rewrite Ib. unfold asum. rewrite dc2tok_sub. reflexivity.
+Qed.
+
+Lemma inv_remove_expired_claims st e provider ids st' r ev :
+  remove_expired_claims st e provider ids = Ok (st', r, ev) ->
+  reg_inv st -> reg_inv st' /\ wld st' = wld st.
+Proof.
+  intros H I. apply remove_expired_claims_spec in H as (_ & Ht & Hw & Hreg & _).
+  split; [|exact Hw]. apply (reg_inv_frame st); rewrite ?Ht, ?Hreg; cbn; auto; try apply I.
+  intros p i c Hc. cbn in Hc. apply del_all_lookup_Some in Hc. apply (ri_claims _ I). exact Hc.
+Qed.
+
+Lemma inv_extend_terms st c terms st' r ev :
+  extend_claim_terms st c terms = Ok (st', r, ev) ->
+  reg_inv st -> reg_inv st' /\ wld st' = wld st.
+Proof.
+  unfold extend_claim_terms. intros H I.
+  destruct (extend_terms _ _ _ _ _) as [[cl codes] ev0] eqn:Ee. injection H as <- _ _.
+  split; [|reflexivity]. apply (reg_inv_frame st); cbn; auto; try apply I.
+  eapply claims_wf_rel; [|reflexivity|apply I]. cbn. eapply extend_terms_rel. exact Ee.
+Qed.
+
+Theorem exec_inv st o st' r ev :
+  exec st o = Ok (st', r, ev) -> world_ok (wld st) -> op_caller o <> VR ->
+  reg_inv st -> reg_inv st' /\ wld st' = wld st.
+Proof.
+  intros H Hw Hc I. destruct o; cbn [exec op_caller] in *.
+  - eapply inv_add_verifier; eauto.
+  - eapply inv_remove_verifier; eauto.
+  - eapply inv_add_client; eauto.
+  - eapply inv_remove_data_cap; eauto.
+  - apply rbind_ok in H as ([[s i] v] & H & _). eapply inv_transfer; eauto.
+  - apply rbind_ok in H as ([[s i] v] & H & _). eapply inv_transfer_from; eauto.
+  - eapply inv_claim; eauto.
+  - eapply inv_remove_expired_allocations; eauto.
+  - eapply inv_remove_expired_claims; eauto.
+  - eapply inv_extend_terms; eauto.
+  - unfold get_claims in H. injection H as <- _ _. auto.
+  - apply rbind_ok in H as (t & Ht & H). injection H as <- _ _. split; [|reflexivity].
+    apply tk_burn_spec in Ht as (_ & _ & He & _ & _ & Hbal & Hallow).
+    apply (reg_inv_frame st); cbn; auto; try apply I.
+    + eapply tk_effect_inv; [exact He|apply I].
+    + intros o. rewrite Hallow. apply I.
+    + rewrite Hbal. destruct (decide (VR = caller)); [congruence|reflexivity].
+  - apply rbind_ok in H as (t & Ht & H). injection H as <- _ _. split; [|reflexivity].
+    apply tk_burn_from_spec in Ht as (al' & Hu & Hne & Ht & Hal).
+    pose proof (use_allowance_owner _ _ _ _ _ (ri_noallow _ I) Hne Hu) as Hown.
+    apply tk_burn_spec in Ht as (_ & _ & He & _ & _ & Hbal & _).
+    apply tk_effect_set_allow in He. cbn in Hbal.
+    apply (reg_inv_frame st); cbn; auto; try apply I.
+    + eapply tk_effect_inv; [exact He|apply I].
+    + intros o. rewrite Hal. apply use_allowance_spec in Hu as (_ & _ & Hk).
+      eapply noallow_other; [exact Hown|exact Hk|apply I].
+    + specialize (Hbal VR). unfold balance_of in *. cbn in Hbal. rewrite Hbal.
+      destruct (decide (VR = owner)); [congruence|reflexivity].
+  - destruct (delta <? 0); [discriminate|]. injection H as <- _ _. split; [|reflexivity].
+    apply (reg_inv_frame st); cbn; auto; try apply I.
+    intros o. cbn. rewrite change_allowance_other; [apply I|]. intros [= Heq _]. congruence.
+  - destruct (delta <? 0); [discriminate|]. injection H as <- _ _. split; [|reflexivity].
+    apply (reg_inv_frame st); cbn; auto; try apply I.
+    intros o. cbn. rewrite change_allowance_other; [apply I|]. intros [= Heq _]. congruence.
+  - injection H as <- _ _. split; [|reflexivity].
+    apply (reg_inv_frame st); cbn; auto; try apply I.
+    intros o. cbn. rewrite lookup_delete_ne; [apply I|]. intros [= Heq _]. congruence.
+Qed.
